@@ -5,6 +5,7 @@ R15.2 exact identities on the extracted formulas (sympy): unit volume of the thr
       equivalent-radius factor 1 at aspect ratio 1 and the ar -> 1+ limits of the needle/plate thermodynamic and kinetic factors equal 1
 R15.3 the value used at aspect ratio <= 1 (the *Min attribute) is the ar -> 1+ limit of the shape's own formula (continuity at 1)
 R15.4 result buffers are floating point, never of the dtype of the caller's aspect-ratio array
+R15.7 bisection for the critical radius: whole start interval, one end moved per iteration, tolerance test
 R15.5 ShapeFactor keeps no value derived from the shape description that survives a change of the description
 """
 from __future__ import annotations
@@ -258,6 +259,76 @@ def r156(repo, ctx):
     ctx.floor('R15.6', ncls, 5)
 
 
+def r157(repo, ctx):
+    """bisection for the critical radius of a size-dependent aspect ratio: the search starts on the whole admissible interval
+    [RcritSphere, Rmax] (the two arguments), every iteration replaces exactly one end by the midpoint, the midpoint is the mean
+    of the ends, and the loop ends on the tolerance test.  A narrower start interval is only right for monotone aspect-ratio
+    functions; a root outside it is lost and the search falls back to the spherical radius."""
+    from .. import cfg as C
+    q = 'ShapeFactor._findRcrit'
+    f = repo.func(SF, q)
+    pn = U.params(f)
+    loops = [l for l in ast.walk(f) if isinstance(l, ast.While)]
+    if len(loops) != 1 or len(pn) < 3:
+        ctx.undecided('R15.7', SF, q, f, 'expected one while loop and the parameters (RcritSphere, Rmax)')
+        return
+    loop = loops[0]
+    # the midpoint binding  mid = (lo + hi) / 2  names the bracket ends
+    mids = []
+    for st in ast.walk(f):
+        if isinstance(st, ast.Assign) and len(st.targets) == 1 and isinstance(st.targets[0], ast.Name):
+            v = st.value
+            half = None
+            if isinstance(v, ast.BinOp) and isinstance(v.op, ast.Div) and U.is_const(v.right, 2):
+                half = v.left
+            elif isinstance(v, ast.BinOp) and isinstance(v.op, ast.Mult):
+                for a, b in ((v.left, v.right), (v.right, v.left)):
+                    if U.is_const(a, 0.5):
+                        half = b
+            if isinstance(half, ast.BinOp) and isinstance(half.op, ast.Add) and isinstance(half.left, ast.Name) and isinstance(half.right, ast.Name):
+                mids.append((st, st.targets[0].id, {half.left.id, half.right.id}))
+    ends = {frozenset(m[2]) for m in mids}
+    if len(ends) != 1 or len(mids) < 2:
+        ctx.undecided('R15.7', SF, q, f, 'midpoint bindings mid = (lo + hi) / 2 not recognised')
+        return
+    lo_hi = set(next(iter(ends)))
+    mid = mids[0][1]
+    in_loop = {id(n) for n in ast.walk(loop)}
+    init = {}
+    for st in U.body_without_docstring(f):
+        if id(st) in in_loop or st is loop:
+            break
+        if isinstance(st, ast.Assign) and len(st.targets) == 1 and isinstance(st.targets[0], ast.Name) and st.targets[0].id in lo_hi:
+            init[st.targets[0].id] = st
+    vals = {nm: (st.value.id if isinstance(st.value, ast.Name) else None) for nm, st in init.items()}
+    ok = set(init) == lo_hi and set(vals.values()) == {pn[1], pn[2]}
+    bad_st = next((st for nm, st in init.items() if vals[nm] not in (pn[1], pn[2])), f)
+    ctx.check(ok, 'R15.7', SF, q, bad_st, f'the bisection starts on the whole interval [{pn[1]}, {pn[2]}]',
+              f'the bisection does not start on [{pn[1]}, {pn[2]}] ({", ".join(nm + " = " + U.src(st.value)[:50] for nm, st in sorted(init.items()))}): a start interval narrowed by an assumption on the '
+              'aspect-ratio function excludes the root for functions that are not monotone, and the search then falls back to the spherical radius', construct='_findRcrit: start interval')
+    # each iteration: exactly one end := mid, then mid := mean of the ends
+    g = C.build(loop.body, region=True)
+
+    def tr(node, st, label):
+        moved, remid = st
+        a = node.ast
+        if node.kind == 'stmt' and isinstance(a, ast.Assign) and len(a.targets) == 1 and isinstance(a.targets[0], ast.Name):
+            t = a.targets[0].id
+            if t in lo_hi:
+                moved = moved + ((t, isinstance(a.value, ast.Name) and a.value.id == mid and not remid),)
+            if t == mid:
+                remid = True
+        return (moved, remid)
+    at, exits = C.collect(g, ((), False), tr)
+    bad = [(lab, st) for lab, sts in exits.items() if lab in ('fall', 'continue') for st in sts if not (len(st[0]) == 1 and st[0][0][1] and st[1])]
+    ctx.check(not bad, 'R15.7', SF, q, loop, 'on every path of an iteration exactly one end of the bracket is replaced by the midpoint and the midpoint is recomputed from the new ends',
+              'an iteration of the bisection does not replace exactly one end of the bracket by the midpoint (or does not recompute the midpoint): the bracket stops shrinking around the root',
+              construct='_findRcrit: bracket update')
+    tests = [n for n in ast.walk(loop.test) if isinstance(n, ast.Compare)]
+    ok_t = any(isinstance(c.ops[0], (ast.Gt, ast.GtE)) and 'tol' in U.src(c.comparators[0]) and isinstance(c.left, ast.Call) and (U.call_name(c.left) or '') in ('np.abs', 'abs', 'np.absolute') for c in tests)
+    ctx.check(ok_t, 'R15.7', SF, q, loop, 'the search continues while |objective(mid)| exceeds the tolerance', 'the loop test is not |objective at the midpoint| > tol', construct='_findRcrit: loop test')
+
+
 def check(repo, ctx, index, purity):
     ctx.explanation = EXPLANATION
     ctx.assumptions += ['sympy limit/simplify on the extracted closed forms', 'quadrature comparison, monotonicity and bisection tolerance are not decided']
@@ -265,3 +336,4 @@ def check(repo, ctx, index, purity):
     r152_r153(repo, ctx)
     r155(repo, ctx, index)
     r156(repo, ctx)
+    r157(repo, ctx)
